@@ -163,6 +163,8 @@ def run(ctx):
     cases = os.path.join(ctx.out, "cases.ndjson")
     ctx.tlc("logger", "Gen_LoggerCid", "Gen_LoggerCid.%s.cfg" % ctx.tier, cases_to=cases, count_states=False, workers=1)
     descs = ctx.load_cases(cases)
+    if not descs or any(json.loads(d)["n"] > 64 for d in descs):
+        raise vlib.Broken("run descriptors missing or with more goroutines than Trace_LoggerCid.cfg allows (N = 64)")
 
     # REPLAY: record executions of the real package under the race detector
     tdir = os.path.join(ctx.out, "traces")
